@@ -1469,9 +1469,9 @@ def run(chk, ctx):
             guarded(chk, 'll', dict(d=d), l3_likelihood, chk, ctx, rng, d, tier)
     # ---- round 7: masks survive likelihood evaluation, for model / data of one folding status derived in every way
     it = 0
-    for rep in range(3 if not thorough else 20):
+    for rep in range(6 if not thorough else 24):
         for dk in DERIVATIONS:
-            fkind = ['proper', 'unfolded', 'declared'][it % 3]; it += 1
+            fkind = ['proper', 'unfolded', 'declared'][(it + rep) % 3]; it += 1
             d = 1 + (it % 3) if dk != 'row' else 2 + (it % 2)
             def one(d=d, fkind=fkind, dk=dk):
                 model, data, info = gen_llmask_case(rng, dadi, d, tier, fkind, dk)
